@@ -7,7 +7,7 @@ ENTRY = dict(
         corr_files=["Corr/C01Corr.v"],
         theorems=["c01_all_maps", "c01_support_sum", "c01_multilinear", "c01_c05_vocabulary", "c01_roundtrip", "c01_roundtrip_generated", "c01_expansion",
                   "c01_listed_samples", "c01_roundtrip_public", "c01_unseparated", "c01_identity_projection", "c01_subcutoff",
-                  "c01_weights_from_c04", "c01_idle_refusal", "c01_idle_rule", "c01_hyps_satisfiable", "c01_ex_roundtrip",
+                  "c01_weights_from_c04", "c01_idle_refusal", "c01_idle_rule", "c01_checker_sound", "c01_hyps_satisfiable", "c01_ex_roundtrip",
                   "c01_facts"],
         allowed_axioms=[],
         facts=["nonzero_atol", "c05_formulas", "c10_idle_group_removed"],
